@@ -44,6 +44,10 @@ type Env struct {
 	switched      bool // the running commit passed commit/switched
 	injAtBegin    int  // injected failures at the begin of the running transaction
 	inCommit      bool
+	wmu           sync.Mutex
+	wev           []core.Event         // writer-level trace (WriterTrace.tla)
+	wtx           int                  // number of the current write transaction
+	winj          int                  // injected failures seen at the writer's previous step
 	kindByContent map[[2]uint64]string // (page id, content hash) -> kind of a scheduled write
 
 	// bookkeeping of the driver (to generate valid operations; never used for verdicts)
@@ -213,7 +217,7 @@ func (e *Env) sink(ev txfile.VerifEvent) {
 	if e.opening && e.F == nil && ev.File != nil && goidOf() == e.openGID {
 		// first event of the file that is being opened by this environment
 		e.F = ev.File
-		e.writerID = ev.File.VerifWriterID()
+		e.setWriter(ev.File.VerifWriterID())
 	}
 	if ev.File != nil && ev.File != e.F {
 		return
@@ -221,6 +225,7 @@ func (e *Env) sink(ev txfile.VerifEvent) {
 	if ev.File == nil && ev.Writer != e.writerID {
 		return
 	}
+	e.writerTrace(ev)
 	switch ev.Point {
 	case "writer/schedule":
 		k := "D"
@@ -265,6 +270,78 @@ func (e *Env) sink(ev txfile.VerifEvent) {
 	if e.OnPoint != nil && ev.File != nil {
 		e.OnPoint(ev.Point)
 	}
+}
+
+// writerTrace records the calls and steps of the background writer for WriterTrace.tla.
+func (e *Env) writerTrace(ev txfile.VerifEvent) {
+	if !e.Record {
+		return
+	}
+	inj := func() bool {
+		n := e.Disk.Injected()
+		d := n > e.winj
+		e.winj = n
+		return d
+	}
+	var out core.Event
+	switch ev.Point {
+	case "tx/begin":
+		if ev.Tx != nil && !ev.Tx.Readonly() {
+			e.wmu.Lock()
+			e.wtx++
+			e.wmu.Unlock()
+		}
+		return
+	case "writer/schedule":
+		out = core.Event{"ev": "Sched", "pg": uint64(ev.ID), "h": contentHash(ev.Buf) % 1000000007}
+	case "writer/sync":
+		out = core.Event{"ev": "SyncReq", "reset": ev.Flags&1 != 0}
+	case "writer/written":
+		out = core.Event{"ev": "Written", "pg": uint64(ev.ID), "h": contentHash(ev.Buf) % 1000000007, "err": ev.Flags&1 != 0}
+	case "writer/synced":
+		out = core.Event{"ev": "Synced", "err": ev.Flags&1 != 0, "reset": ev.Flags&2 != 0}
+	default:
+		return
+	}
+	e.wmu.Lock()
+	switch ev.Point {
+	case "writer/schedule", "writer/sync":
+		out["tx"] = e.wtx
+	default:
+		out["inj"] = inj()
+	}
+	e.wev = append(e.wev, out)
+	e.wmu.Unlock()
+}
+
+// setWriter adopts the writer of a newly opened file: what the previous writer had queued
+// is gone with it (Close stops the writer without draining writes nobody waits for).
+func (e *Env) setWriter(id interface{}) {
+	if id == e.writerID {
+		return
+	}
+	e.writerID = id
+	e.wmu.Lock()
+	if len(e.wev) > 0 {
+		e.wev = append(e.wev, core.Event{"ev": "Reset"})
+	}
+	e.wmu.Unlock()
+}
+
+// closing marks the point from which the writer is being stopped and the file closed under it.
+func (e *Env) closing() {
+	e.wmu.Lock()
+	if len(e.wev) > 0 {
+		e.wev = append(e.wev, core.Event{"ev": "Closing"})
+	}
+	e.wmu.Unlock()
+}
+
+// WriterEvents returns the recorded writer-level events.
+func (e *Env) WriterEvents() []core.Event {
+	e.wmu.Lock()
+	defer e.wmu.Unlock()
+	return append([]core.Event(nil), e.wev...)
 }
 
 func (e *Env) contentOf(pg uint64, b []byte, kind string, complete bool) map[string]interface{} {
@@ -443,7 +520,7 @@ func (e *Env) Open(model map[uint64][4]int, root uint64) error {
 	}
 	e.F = f
 	e.PS = f.PageSize()
-	e.writerID = f.VerifWriterID()
+	e.setWriter(f.VerifWriterID())
 	e.unsink = core.AddHookSink(e.sink)
 	_, dur := e.Disk.Snapshot()
 	var pages [][2]interface{}
@@ -479,6 +556,7 @@ func (e *Env) Close() error {
 	if e.F == nil {
 		return nil
 	}
+	e.closing()
 	err := e.F.Close()
 	e.F = nil
 	e.unsinkOld()
@@ -487,6 +565,7 @@ func (e *Env) Close() error {
 
 // Reopen closes and reopens the file (C10): the projection must be unchanged.
 func (e *Env) Reopen(opts txfile.Options) error {
+	e.closing()
 	if err := e.F.Close(); err != nil {
 		return err
 	}
@@ -498,7 +577,7 @@ func (e *Env) Reopen(opts txfile.Options) error {
 		return err
 	}
 	e.F = f
-	e.writerID = f.VerifWriterID()
+	e.setWriter(f.VerifWriterID())
 	e.unsink = core.AddHookSink(e.sink)
 	e.Emit(core.Event{"ev": "Reopen", "st": e.St()})
 	return e.probeIdle()
@@ -806,6 +885,7 @@ func (e *Env) Resize(newMax uint64, prealloc bool) error {
 	if snap.MetaEnd > end {
 		end = snap.MetaEnd
 	}
+	e.closing()
 	if err := e.F.Close(); err != nil {
 		return err
 	}
@@ -830,7 +910,7 @@ func (e *Env) Resize(newMax uint64, prealloc bool) error {
 		return err
 	}
 	e.F = f
-	e.writerID = f.VerifWriterID()
+	e.setWriter(f.VerifWriterID())
 	e.ExtentLimit = before
 	if uint(newMax) > before {
 		e.ExtentLimit = uint(newMax)
